@@ -165,6 +165,15 @@ type storeOp struct {
 	Holds   int
 	Set     []int
 	SetInst []string
+
+	InvokeSeq int // set when the operation is invoked
+}
+
+func consName(c int) string {
+	if c >= 0 && c < len(consNames) {
+		return consNames[c]
+	}
+	return "PartialReadThenClose"
 }
 
 func (o *storeOp) String() string {
@@ -172,9 +181,9 @@ func (o *storeOp) String() string {
 	case opPut:
 		return fmt.Sprintf("Put(o%d@%q mode=%d arg=%d ctor=%d cuts=%v)", o.Obj, o.Inst, o.PutMode, o.PutArg, o.Ctor, o.Cuts)
 	case opGet:
-		return fmt.Sprintf("Get(o%d@%q cons=%s holds=%d)", o.Obj, o.Inst, consNames[o.Cons], o.Holds)
+		return fmt.Sprintf("Get(o%d@%q cons=%s holds=%d)", o.Obj, o.Inst, consName(o.Cons), o.Holds)
 	case opGetComposite:
-		return fmt.Sprintf("GetFromComposite(o%d@%q child=%d cons=%s)", o.Obj, o.Inst, o.Child, consNames[o.Cons])
+		return fmt.Sprintf("GetFromComposite(o%d@%q child=%d cons=%s)", o.Obj, o.Inst, o.Child, consName(o.Cons))
 	case opFind:
 		return fmt.Sprintf("FindMissing(%v@%v)", o.Set, o.SetInst)
 	}
@@ -230,7 +239,7 @@ type storeWorld struct {
 	tolerateIntegrity                     bool // C08 runs corrupt the medium on purpose
 
 	// hooks
-	onGetDone  func(op *storeOp, ok bool, invokeAlloc int)
+	onGetDone  func(op *storeOp, res int, invokeAlloc int)
 	onFindDone func(op *storeOp, present []bool, invokeAlloc int)
 	onPutDone  func(op *storeOp, u *upload, err error)
 	srcStats   []*sim.SrcStats
@@ -459,6 +468,7 @@ func (w *storeWorld) doGet(op *storeOp) {
 	o := m.objs[op.Obj]
 	d := m.digestOf(o, op.Inst)
 	invokeAlloc := w.allocs()
+	op.InvokeSeq = w.seq()
 	w.c.Logf("g%d invoke %s", w.s.Cur().ID, op)
 	var b buffer.Buffer
 	expect := o.Content
@@ -477,7 +487,11 @@ func (w *storeWorld) doGet(op *storeOp) {
 	if err != nil {
 		w.checkReadError(op, err)
 		if w.onGetDone != nil {
-			w.onGetDone(op, false, invokeAlloc)
+			if status.Code(err) == codes.NotFound {
+				w.onGetDone(op, getNotFound, invokeAlloc)
+			} else {
+				w.onGetDone(op, getOtherErr, invokeAlloc)
+			}
 		}
 		return
 	}
@@ -531,9 +545,20 @@ func (w *storeWorld) doGet(op *storeOp) {
 		}
 	}
 	if w.onGetDone != nil {
-		w.onGetDone(op, whole || op.Cons == consReadAt, invokeAlloc)
+		if whole {
+			w.onGetDone(op, getFoundWhole, invokeAlloc)
+		} else {
+			w.onGetDone(op, getFoundPartial, invokeAlloc)
+		}
 	}
 }
+
+const (
+	getFoundWhole = iota
+	getFoundPartial
+	getNotFound
+	getOtherErr
+)
 
 func protoEqualBytes(a, b []byte) bool {
 	var x, y remoteexecution.ActionResult
@@ -552,6 +577,7 @@ func (w *storeWorld) doFind(op *storeOp) {
 		sb.Add(ds[i])
 	}
 	invokeAlloc := w.allocs()
+	op.InvokeSeq = w.seq()
 	w.c.Logf("g%d invoke %s", w.s.Cur().ID, op)
 	missing, err := w.e.ba.FindMissing(w.ctx, sb.Build())
 	w.c.Logf("g%d return %s missing=%d err=%v", w.s.Cur().ID, op, missing.Length(), err)
